@@ -1096,6 +1096,10 @@ def element_factories_rule(idx: Index, res: Result, rule: str) -> int:
                          and ((isinstance(a.ops[0], ast.In) and not t) or (isinstance(a.ops[0], ast.NotIn) and t)))
                         or (isinstance(a, ast.Compare) and len(a.ops) == 1 and isinstance(a.ops[0], ast.Is) and t
                             and isinstance(a.comparators[0], ast.Constant) and a.comparators[0].value is None)
+                        # x = registry.get(name, <sentinel>) ... if x is <sentinel>:
+                        or (isinstance(a, ast.Compare) and len(a.ops) == 1 and isinstance(a.ops[0], ast.Is) and t and isinstance(a.left, ast.Name)
+                            and any(isinstance(v_, ast.Call) and call_name(v_) == "get" and len(v_.args) == 2 and src(v_.args[0]) == name_p
+                                    and src(v_.args[1]) == src(a.comparators[0]) for v_ in single_assignments(fi.node).get(a.left.id, [])))
                         for a, t in nesting_atoms(fi.node, c))
             res.check(rule, "Model.%s builds an element only for a name that is not registered" % meth, fresh, fi.loc(c), fi.qual, src(c)[:80],
                       "Model.%s evaluates %s whether or not '%s' is registered already: constructing an element compiles its default equation into "
